@@ -118,34 +118,43 @@ def call_nn(sg, op, a, T, variant=0):
         b = T[2] if a["bias"] else None
         kw = geom_args(g, two)
         kw.pop("kernel_size")
-        if variant == 1 and two:
+        if variant >= 1 and two:
             kw = {k: squash(v) for k, v in kw.items()}      # int forms where both axes agree
+        if variant == 2:
+            # the layer module, with the case's weights installed
+            ws = T[1].shape
+            layer = (nn.Conv2d if two else nn.Conv1d)(ws[1], ws[0], tuple(ws[2:]) if two else ws[2], bias=b is not None, **kw)
+            layer.weight, layer.bias = T[1], b
+            object.__setattr__(layer, "weight", T[1])
+            object.__setattr__(layer, "bias", b)
+            return layer(x)
         return (F.conv2d if two else F.conv1d)(x, T[1], b, **kw)
     if op in ("maxpool1d", "avgpool1d", "maxpool2d", "avgpool2d"):
         two = op.endswith("2d")
         kw = geom_args(a["g"], two)
         fn = {"maxpool1d": F.max_pool1d, "avgpool1d": F.avg_pool1d, "maxpool2d": F.max_pool2d, "avgpool2d": F.avg_pool2d}[op]
-        if variant == 1:
+        sq = {k: squash(v) for k, v in kw.items()} if two else kw
+        if variant == 1 and all(isinstance(v, int) for v in sq.values()):
+            return fn(x, **sq)                                  # documented int form of the functional op
+        if variant >= 1:
             cls = {"maxpool1d": nn.MaxPool1d, "avgpool1d": nn.AvgPool1d, "maxpool2d": nn.MaxPool2d, "avgpool2d": nn.AvgPool2d}[op]
-            if two:
-                kw = {k: squash(v) for k, v in kw.items()}
-            return cls(**kw)(x)
+            return cls(**sq)(x)
         return fn(x, **kw)
     if op == "nnunfold":
         kw = geom_args(a["g"], True)
         pv = RC.pyscalar(a["padv"])
         sq = {k: squash(v) for k, v in kw.items()}
-        if variant == 1:
-            if all(isinstance(v, int) for v in sq.values()):
-                return F.unfold(x, pad_value=pv, **sq)          # documented int form of the functional op
+        if variant == 1 and all(isinstance(v, int) for v in sq.values()):
+            return F.unfold(x, pad_value=pv, **sq)              # documented int form of the functional op
+        if variant >= 1:
             return nn.Unfold(pad_value=pv, **sq)(x)
         return F.unfold(x, pad_value=pv, **kw)
     if op == "nnfold":
         kw = geom_args(a["g"], True)
         sq = {k: squash(v) for k, v in kw.items()}
-        if variant == 1:
-            if all(isinstance(v, int) for v in sq.values()):
-                return F.fold(x, tuple(a["osize"]), **sq)
+        if variant == 1 and all(isinstance(v, int) for v in sq.values()):
+            return F.fold(x, tuple(a["osize"]), **sq)
+        if variant >= 1:
             return nn.Fold(tuple(a["osize"]), **sq)(x)
         return F.fold(x, tuple(a["osize"]), **kw)
     if op == "linear":
@@ -221,6 +230,8 @@ NN_OPS = {"conv1d", "conv2d", "maxpool1d", "avgpool1d", "maxpool2d", "avgpool2d"
 
 
 class NNReplayer(RC.CatalogReplayer):
+    variants = (0, 1, 2)   # functional with tuple arguments / functional with int arguments / layer module
+
     def __init__(self, sg):
         super().__init__(sg, caller=self._call)
         RC.argclass = argclass
